@@ -749,6 +749,59 @@ def r_zorder_root(rule, root=None):
 # C09: cancellation and per-thread state
 
 
+def _per_thread_init(fn):
+    """`.map_init(init, |(w, rh), tile| ..)` where `init` (a closure, possibly bound by a let) builds a fresh
+    `W::new(render_config, <the tile sizes>, vars)` and a `.clone()` of the render handle and returns the pair"""
+    mis = [c for c in A.find(fn["body"], "MethodCall") if c["method"] == "map_init" and len(c["args"]) == 2]
+    if len(mis) != 1:
+        return False
+    init, body = A.strip(mis[0]["args"][0]), A.strip(mis[0]["args"][1])
+    if init.get("k") == "Path":
+        nm = A.ident(init)
+        lets = [s_ for s_ in A.find(fn["body"], "Let") if A.binding_name(s_["pat"]) == nm and s_.get("init") is not None]
+        if len(lets) != 1:
+            return False
+        init = A.strip(lets[0]["init"])
+    if init.get("k") != "Closure" or body.get("k") != "Closure" or init.get("inputs"):
+        return False
+    ins = body.get("inputs") or []
+    if len(ins) != 2 or (ins[0].get("k") if isinstance(ins[0], dict) else None) not in ("PTuple",):
+        return False
+    cb = A.strip(init["body"])
+    stmts = cb.get("stmts") if cb.get("k") == "Block" else None
+    if not stmts:
+        return False
+    env = {}
+    # copies of Copy parameters made outside the closure (`let ts = tile_sizes;`)
+    for s_ in A.find(fn["body"], "Let"):
+        n_ = A.binding_name(s_["pat"])
+        i_ = A.strip(s_.get("init")) if s_.get("init") is not None else None
+        if n_ and i_ is not None and i_.get("k") == "Path" and A.ident(i_):
+            env[n_] = A.ident(i_)
+    clone_of = {}
+    worker = None
+    for s_ in stmts:
+        if s_.get("k") != "Let":
+            continue
+        n_ = A.binding_name(s_["pat"])
+        i_ = A.strip(s_["init"]) if s_.get("init") is not None else None
+        if i_ is None:
+            continue
+        if i_.get("k") == "MethodCall" and i_["method"] == "clone" and A.ident(A.strip(i_["recv"])):
+            clone_of[n_] = A.ident(A.strip(i_["recv"]))
+        if i_.get("k") == "Call" and (A.path_segs(i_["func"]) or [])[-2:] == ["W", "new"]:
+            args = [A.ident(A.strip(a)) for a in i_["args"]]
+            args = [env.get(a, a) for a in args]
+            if args == ["render_config", "tile_sizes", "vars"]:
+                worker = n_
+    tail = A.stmt_expr(stmts[-1]) if not stmts[-1].get("semi") else None
+    tail = A.strip(tail) if tail is not None else None
+    if tail is None or tail.get("k") != "Tuple" or len(tail["elems"]) != 2:
+        return False
+    a, b = [A.ident(A.strip(e)) for e in tail["elems"]]
+    return worker is not None and a == worker and clone_of.get(b) == "rh"
+
+
 def r_cancel_tiles(rule, root=None):
     fn0 = A.find_fn(LIB, "render_tiles", root=root)
     # read with same-file helpers expanded in place (a per-tile helper is the same per-tile code)
@@ -777,7 +830,7 @@ def r_cancel_tiles(rule, root=None):
     else:
         rule.bad("cancel|poll", "the cancel token must be polled per tile on both paths (found %d polls)" % len(polls), A.where(fn))
     # per-thread state
-    if "letinit=||{letrh=rh.clone();letworker=W::new(render_config,ts,vars);(worker,rh)};" in t and ".map_init(init,|(w,rh),tile|" in t:
+    if _per_thread_init(fn):
         rule.ok("each pool thread gets its own worker and its own clone of the render handle")
     else:
         rule.bad("threads|init", "pooled rendering must give every thread a fresh worker and a clone of the handle via map_init", A.where(fn))
